@@ -338,6 +338,19 @@ def S4(inp, chunks, event, lose=False, observer=False):
         # a disconnect noticed right after the last chunk leaves nextIndex where it was: the transfer is simply repeated
         # (after a re-election the leader's log also holds its new no-op at 7)
         cl['leader_next_index_after_snapshot'] = Or(And(nx >= 6, nx <= (8 if event == 'interim' else 7)), And(event == 'disconnect', Eq(nx, 2)))
+    if event == 'none' and exc is None and installed:
+        # the same follower needs the same snapshot a second time (its load failed, or it rejects what follows): the transfer
+        # starts again from the first chunk and carries the whole image
+        get(lead, 'raftNextIndex')[b] = 2
+        n_before = len(tr.sent)
+        tr.hook_at = None
+        _, exc_again = guard(getattr(lead, so.P + 'sendAppendEntries'))
+        again = [m['serialized'] for nd, m in tr.sent[n_before:] if m.get('serialized') is not None]
+        whole_again = Blob()
+        for ch in again:
+            whole_again = whole_again + ch[0]
+        cl['second_transfer_starts_from_the_beginning'] = exc_again is None and len(again) >= 1 and again[0][1] is True and again[-1][2] is True \
+            and bool(whole_again.whole(('image', 1), size1))
     cl['snapshot_messages_say_where_the_snapshot_ends'] = all(m.get('snapshot_last') is not None and bool(And(Eq(m['snapshot_last'][0], 5), Eq(m['snapshot_last'][1], 1))) for nd, m in tr.sent if m.get('serialized') is not None)
     acks = [m for nd, m in ftr.sent if m['type'] == 'next_node_idx' and m['success'] is True]
     cl['success_ack_only_after_install'] = (len(acks) >= 1 and bool(Eq(acks[0]['next_node_idx'], 6))) if installed else len(acks) == 0
